@@ -487,7 +487,8 @@ def run1(ck):
     ck.cov["partial"] = []
 
     # 3. strings
-    rng = vf.SplitMix(ck.seed)
+    # vf.SplitMix states of consecutive seeds are one draw apart: spread them first
+    rng = vf.SplitMix((ck.seed * 0x2545F4914F6CDD1D + 0xC11) & ((1 << 64) - 1))
     nstr = ck.scale(6000, 200000) if (thorough or not deep) else 60000
     kinds = {}
     ops = []
